@@ -47,16 +47,11 @@ fn targets(f: &str) -> Option<Vec<String>> {
 // one repository handle per process (the entity generator can be loaded once); the functions under
 // test take the current directory as an explicit argument
 fn load(rootabs: &str) -> XvcRoot {
-    let p = XvcConfigParams {
-        current_dir: AbsolutePath::from(Path::new(rootabs).to_path_buf()),
-        include_system_config: false,
-        include_user_config: false,
-        project_config_path: None,
-        local_config_path: None,
-        include_environment_config: false,
-        command_line_config: None,
-        default_configuration: default_project_config(false),
-    };
+    // builder calls only: compiles whatever fields the struct has
+    let p = XvcConfigParams::new(default_project_config(false), AbsolutePath::from(Path::new(rootabs).to_path_buf()))
+        .include_system_config(false)
+        .include_user_config(false)
+        .include_environment_config(false);
     load_xvc_root(p).expect("load root")
 }
 fn show(mut v: Vec<String>) -> String {
